@@ -326,7 +326,8 @@ def run(ctx):
         if fno % 2 == 0:
             ms.add_aux(gen, gtirb, rng, ir0)
         raw = ms.save(ir0)
-        msg = ms.parse_file(gtirb, raw)
+        msg = ms.canonical_order(ms.parse_file(gtirb, raw))
+        raw = raw[:8] + msg.SerializeToString()
 
         def case(what, fclass, data, mmsg=None):
             """one faulty file"""
